@@ -7,7 +7,7 @@
    (insert 2, update 1, remove 1), hist_total = sum of all weights ever handed in,
    ldf_peak = max over the operations of (stored sum before + incoming weight). *)
 From EoNV Require Import Prelude Samp ListDict ListDictP ListDictF ListDictFP ListDictFPr
-  ListDictFP2 ListDictFP3 ListDictFPb.
+  ListDictFP2 ListDictFP3 ListDictFP4 ListDictFPb.
 From Coq Require Import Qabs.
 
 (* with the identity rounding the model IS the exact model of Props/C16.v *)
@@ -157,6 +157,35 @@ Proof.
   exact (ldf_weights_relative K Keqb Keqb_spec rnd eps eps_nonneg eps_le1 rnd_err rnd_proper).
 Qed.
 
+(* the tracked maximum bounds every stored weight, for a rounding whose values are
+   representable (idempotent).  _partial: idempotence (and, below, monotonicity) hold for
+   IEEE-754 round-to-nearest but are NOT proved for rnd53 here, so the binary64 instance is
+   missing; the check evaluates max_weight >= every stored weight on the class after
+   every history (harness/c16f.py, oracle 'max-bound') *)
+Hypothesis rnd_idem : forall x, rnd (rnd x) == rnd x.
+
+Theorem C16f_max_weight_is_upper_bound_partial :
+  forall (ops : list (op K)) (s : ld K),
+    Forall (op_ok K true) ops -> ldf_run K Keqb rnd (ld_empty true) ops = Ok s ->
+    forall k, wread K s k <= maxw s \/ wt s k = None.
+Proof.
+  exact (ldf_max_weight_bounds K Keqb Keqb_spec rnd eps eps_nonneg eps_le1 rnd_err rnd_proper rnd_idem).
+Qed.
+
+(* hence, for a monotone rounding that leaves 1 alone, every accept threshold
+   fl(weight/max_weight) is a probability *)
+Hypothesis rnd_mono : forall x y, x <= y -> rnd x <= rnd y.
+Hypothesis rep_one : rnd 1 == 1.
+
+Theorem C16f_accept_threshold_is_probability_partial :
+  forall (ops : list (op K)) (s : ld K) k,
+    Forall (op_ok K true) ops -> ldf_run K Keqb rnd (ld_empty true) ops = Ok s -> 0 < maxw s ->
+    0 <= ldf_threshold K rnd s k /\ ldf_threshold K rnd s k <= 1.
+Proof.
+  exact (ldf_threshold_le1 K Keqb Keqb_spec rnd eps eps_nonneg eps_le1 rnd_err rnd_proper rnd_idem
+           rnd_mono rep_one).
+Qed.
+
 End C16f.
 
 (* ---------- binary64: the hypothesis is a theorem ---------- *)
@@ -220,6 +249,8 @@ Print Assumptions C16f_insert_stores_exactly.
 Print Assumptions C16f_update_relative_error.
 Print Assumptions C16f_stored_weights_exact_when_increments_create.
 Print Assumptions C16f_stored_weights_relative_every_history.
+Print Assumptions C16f_max_weight_is_upper_bound_partial.
+Print Assumptions C16f_accept_threshold_is_probability_partial.
 Print Assumptions C16f_binary64_rounding_error.
 Print Assumptions C16f_binary64_rounding_respects_eq.
 Print Assumptions C16f_binary64_drift_bound_history.
